@@ -832,7 +832,7 @@ def simplify_variant(e):
     c = strip(e.args[0])
     # field i of a known tuple / struct aggregate
     if not name.startswith('as '):
-        if c.k == 'aggr' and c.c is not None and (c.name == 'tuple' or c.c.get('akind') == 'adt'):
+        if c.k == 'aggr' and c.c is not None and (c.name == 'tuple' or c.c.get('akind') in ('adt', 'closure')):
             i = (e.c or {}).get('fidx')
             if i is None and name.isdigit():
                 i = int(name)
